@@ -404,17 +404,16 @@ Proof.
   intros Hc Hwf He Hg.
   pose proof (wf_lhs_ok e vals Hwf) as Hl.
   rewrite literal_stmt_form.
-  unfold literal_guard in Hg. apply andb_true_iff in Hg as [Hg1 Hg2].
-  apply negb_true_iff in Hg1. apply negb_true_iff in Hg2.
+  unfold literal_guard in Hg. rename Hg into Hg2. apply negb_true_iff in Hg2.
   destruct vals as [|v0 vals'].
   - (* empty *)
     unfold empty_ok in He.
     destruct (visit_empty_set_op_expr d (type_count (ie_bind e)) (bp_expand_op (ie_bind e))) as [E|] eqn:HE; [|discriminate].
     destruct (wf_empty_arity e row Hwf) as [Hk HX].
     assert (Hrepl : leep_literal d (ie_bind e) [] = Ok E).
-    { unfold leep_literal. cbn [is_nil andb] in Hg1. rewrite andb_true_r in Hg1.
+    { unfold leep_literal.
       destruct (is_tuple_type (ie_bind e)) eqn:Et.
-      - cbn [andb] in Hg1. rewrite HE, Hg1. reflexivity.
+      - exact HE.
       - replace 1%nat with (type_count (ie_bind e)); [exact HE|].
         unfold type_count, is_tuple_type in *. now destruct (bp_kind (ie_bind e)). }
     rewrite Hrepl. cbn [bind]. eexists. split; [reflexivity|].
